@@ -394,6 +394,44 @@ def mutation_checks(acc):
                                   f'after set_units: {show(e1)} on {d}: got {got}, reference {exp}', {'expr': show(e1), 'date': str(d)})
                     break
             search(e1, cal, res, acc)
+    # a definition that is rejected changes nothing: after a set_units call refused for a negative entry (placed first, in the
+    # middle or last, after entries that are fine) the calendar, an expression over it and a resource still answer their configured values
+    for pos in (0, 1, 2):
+        for other in (None, ('num', 2)):
+            dc = DirectCalendar(dict(base_units))
+            e0 = ('dc', base_units)
+            cal = dc
+            if other is not None:
+                cal = dc + 2
+                e0 = ('op', '+', e0, other)
+            res = Resource('r', cal)
+            good = [(LO + DAY, 4), (LO + 2 * DAY, 6)]
+            items = good[:pos] + [(LO + 4 * DAY, -1)] + good[pos:]
+            acc.count('mutation_cases')
+            acc.count('nontrivial')
+            try:
+                dc.set_units(dict(items))
+                out = 'accepted'
+            except RuntimeError as ex:
+                out = 'RecursionError' if isinstance(ex, RecursionError) else 'RuntimeError'
+            except Exception as ex:  # noqa
+                out = type(ex).__name__
+            if out != 'RuntimeError':
+                acc.violation('C17', f'constructor/set_units-negative-units/{out}', f'set_units with a negative entry at position {pos}: {out}, '
+                              'the statement says rejected with RuntimeError', {'items': [(str(a), b) for a, b in items]})
+                continue
+            for d in ds:
+                exp = ref(e0, d)
+                if exp == 'UNDEF':
+                    continue
+                got = cal.get_available_units(d)
+                acc.count('lookups')
+                if not veq(got, exp):
+                    acc.violation('C17', f'mutation/changed-by-rejected-set_units/{"leaf" if other is None else "+"}',
+                                  f'after a set_units call that was rejected (negative entry at position {pos}): {show(e0)} on {d}: got {got}, '
+                                  f'configured value {exp}', {'expr': show(e0), 'date': str(d), 'items': [(str(a), b) for a, b in items]})
+                    break
+            search(e0, cal, res, acc)
 
 
 def constructor_checks(acc):
